@@ -650,8 +650,15 @@ impl<'a> AnalyzeContext<'a, '_> {
                     // We still want to resolve the name,
                     // so that it is available for completion purposes.
                     // We ignore the errors here, since there is already a diagnostic at that position.
+                    // A circular dependency is not a property of the name, it must be reported
+                    // no matter which of the units on the cycle is analyzed first.
                     let mut empty_diag = Vec::new();
-                    let _ = self.name_resolve(scope, name.span(), &mut name.item, &mut empty_diag);
+                    as_fatal(self.name_resolve(
+                        scope,
+                        name.span(),
+                        &mut name.item,
+                        &mut empty_diag,
+                    ))?;
                     continue;
                 }
             }
